@@ -16,7 +16,9 @@ type lBCDEncoder struct{}
 
 func (e *lBCDEncoder) Encode(src []byte) ([]byte, error) {
 	if len(src)%2 != 0 {
-		src = append(src, []byte("0")...)
+		// copy: appending to src would write into the spare capacity of
+		// the caller's slice
+		src = append(append(make([]byte, 0, len(src)+1), src...), '0')
 	}
 
 	enc := bcd.NewEncoder(bcd.Standard)
